@@ -106,10 +106,11 @@ theorem withdraw_exact (st : State) (ctx : Ctx) (tok : Bytes) (nonce : Nat) :
     (∀ key, key ≠ (ctx.caller, tok, nonce) → out.st.refunds key = st.refunds key) ∧
     (st.refunds (ctx.caller, tok, nonce) = 0 → out.sends = []) ∧
     (st.refunds (ctx.caller, tok, nonce) ≠ 0 →
-      out.sends = [⟨ctx.caller, GasService.tokOfBytes tok, st.refunds (ctx.caller, tok, nonce)⟩]) ∧
+      out.sends = [⟨ctx.caller, (match GasService.tokOfBytes tok with | none => none | some t => some (esdtKey t nonce)),
+        st.refunds (ctx.caller, tok, nonce)⟩]) ∧
     out.st.eta = st.eta ∧ out.st.approvals = st.approvals := by
   simp only [withdrawRefundToken]
-  exact ⟨by simp [upd], fun key hk => by simp [upd, hk], fun h => by simp [h], fun h => by simp [h], by simp, by simp⟩
+  exact ⟨by simp [upd], fun key hk => by simp [upd, hk], fun h => by simp [h], fun h => by simp [h]; rfl, by simp, by simp⟩
 
 /-- **Credits change only in a failure callback or in the owner's own withdrawal**: every
     other endpoint leaves all credits untouched. -/
